@@ -123,6 +123,7 @@ func s9OneMeasurement(p *Prog, o *obls) {
 				// the search: a dominating comparison (==) of something computed from an element of a history kept in the
 				// recorder's state (lastSenderReports[i]), evaluated inside a loop; the loop is the innermost one
 				// around the comparison
+				var histIndex ssa.Value
 				fromHistory := func(v ssa.Value) bool {
 					return p.backwardReaches(v, func(w ssa.Value) bool {
 						u, ok := w.(*ssa.UnOp)
@@ -138,7 +139,11 @@ func s9OneMeasurement(p *Prog, o *obls) {
 							return false
 						}
 						fa, ok := hl.X.(*ssa.FieldAddr)
-						return ok && statsStateTypes[typeKey(fa.X.Type())]
+						if ok && statsStateTypes[typeKey(fa.X.Type())] {
+							histIndex = ia.Index
+							return true
+						}
+						return false
 					})
 				}
 				var search map[*ssa.BasicBlock]bool
@@ -161,6 +166,12 @@ func s9OneMeasurement(p *Prog, o *obls) {
 					return
 				}
 				sites++
+				// newest first: the histories are appended to at the end and trimmed at the front (E4/K4), the search
+				// stops at the first match, so the index of the element that is compared counts down — a walk from the
+				// front answers with the oldest entry that shares the echoed middle bits
+				if dir := s9WalkDirection(p, histIndex); dir > 0 {
+					bad = append(bad, fmt.Sprintf("the search that ends at %s walks the history from its oldest entry on: of two entries with the same middle 32 bits the older one is measured against", p.instrPos(st)))
+				}
 				// the increment lies in the search loop's body exactly when control can flow from it back to the loop's
 				// header: the match did not end the search
 				back := func(b *ssa.BasicBlock) bool { return search[b] }
@@ -226,7 +237,7 @@ func s9OneMeasurement(p *Prog, o *obls) {
 			key := funcKey(fn) + ":one-measurement"
 			if len(bad) > 0 {
 				sort.Strings(bad)
-				o.bad("S9", key, strings.Fields(strings.SplitN(bad[0], " at ", 2)[1])[0], strings.Join(dedupe(bad), "; ")+": a history that holds the matching value more than once books the same reply once per duplicate")
+				o.bad("S9", key, strings.Fields(strings.SplitN(bad[0], " at ", 2)[1])[0], strings.Join(dedupe(bad), "; ")+": a history can hold the same middle-32-bit value more than once, and one reply is one measurement against the most recent of them")
 			} else {
 				o.ok("S9", key, p.Pos(fn.Pos()), fmt.Sprintf("%d counter(s) incremented on a match inside a search loop, each ending the search", sites))
 			}
@@ -388,4 +399,33 @@ func s8OncePerPacket(p *Prog, o *obls) {
 		}
 	}
 	o.ok("S8", "once-per-packet-inspected", "-", fmt.Sprintf("%d recording function(s) with message counters", n))
+}
+
+// s9WalkDirection: +1 when the index is a loop variable that counts up (i+1 on the back edge, a range loop), -1 when it
+// counts down, 0 when it cannot be told.
+func s9WalkDirection(p *Prog, idx ssa.Value) int {
+	if idx == nil {
+		return 0
+	}
+	phi, ok := p.origin(idx).(*ssa.Phi)
+	if !ok {
+		// a range loop's index is phi+1
+		if bo, isBo := p.origin(idx).(*ssa.BinOp); isBo && bo.Op == token.ADD && isConstInt(bo.Y, 1) {
+			if _, isPhi := bo.X.(*ssa.Phi); isPhi {
+				return 1
+			}
+		}
+		return 0
+	}
+	for _, e := range phi.Edges {
+		if bo, ok := e.(*ssa.BinOp); ok && bo.X == ssa.Value(phi) && isConstInt(bo.Y, 1) {
+			switch bo.Op {
+			case token.ADD:
+				return 1
+			case token.SUB:
+				return -1
+			}
+		}
+	}
+	return 0
 }
